@@ -178,12 +178,22 @@ def replay_one(SceneGraph, beh, variant):
     return fails
 
 
+def _pack(r):
+    """Keep emitted behaviours as JSON text and drop TLC's raw output: decoded dicts of 10^5 behaviours
+    took 8 GB in the parent, which the fork pool then multiplied (the thorough tier was OOM-killed)."""
+    out = [json.dumps(x, separators=(",", ":")) for x in r.printed]
+    r.stdout = ""
+    return out
+
+
 def _replay_chunk(chunk):
     trimesh = import_trimesh()
     from trimesh.scene.transforms import SceneGraph
     out = []
     n_get = 0
     for idx, beh in chunk:
+        if isinstance(beh, str):
+            beh = json.loads(beh)   # behaviours are kept as compact JSON text (memory: 150 k of them in thorough)
         f = replay_one(SceneGraph, beh, idx + seed())
         n_get += sum(1 for s in beh["h"] if s["op"] == "get") + len(beh["sweep"])
         if f:
@@ -318,18 +328,18 @@ def main(argv):
     dc = 3 if tier == "quick" else 4
     r = tlc.must(tlc.run(d, "SceneGraph", cfg(depth=dc, geoms="Geoms1", invs="INVARIANT EmitAll"), workers=1, timeout=1500), "emit-cover")
     note(f"emit state cover depth={dc}", r)
-    behs += r.printed
+    behs += _pack(r)
     n_cover = len(r.printed)
     # (b) every history of length dl (no VIEW: hist is part of the state)
     dl = 3
     r = tlc.must(tlc.run(d, "SceneGraph", cfg(depth=dl, view=False, invs="INVARIANT EmitLeaf"), workers=1, timeout=1500), "emit-leaf")
     note(f"emit all histories depth={dl}", r)
-    behs += r.printed
+    behs += _pack(r)
     n_leaf = len(r.printed)
     # (c) simulated long histories on 5 nodes, 3 generators
     # TLC's simulator evaluates invariants on every successor of the last state, so each simulated
     # trace yields ~100 emitted behaviours sharing a prefix
-    nsim = 40 if tier == "quick" else 1500
+    nsim = 40 if tier == "quick" else 400
     dsim = 9 if tier == "quick" else 12
     r = tlc.run(d, "SceneGraph", cfg(nodes="Nodes5", gens="Gens3", geoms="Geoms1", depth=dsim, view=False,
                                      invs="INVARIANT EmitLeaf\nINVARIANT GetIsPathProduct"),
@@ -337,18 +347,18 @@ def main(argv):
     if r.violated or (r.error and r.error != "timeout"):
         raise MachineryError("simulation failed: %s %s" % (r.violated, r.error))
     note(f"simulate num={nsim} depth={dsim}", r)
-    behs += r.printed
+    behs += _pack(r)
     n_sim = len(r.printed)
     # (d) from a pre-built chain world -> a -> b -> c: every history of length 3 and a deeper state cover, so
     # that "multi-hop query, re-parent, query again" needs no set-up steps
     r = tlc.must(tlc.run(d, "SceneGraph", cfg(depth=3, view=False, shape="chain", invs="INVARIANT EmitLeaf\nINVARIANT GetIsPathProduct"), workers=1, timeout=1500), "emit-chain")
     note("emit all histories depth=3 from a chain", r)
-    behs += r.printed
+    behs += _pack(r)
     n_chain = len(r.printed)
     if tier == "thorough":
         r = tlc.must(tlc.run(d, "SceneGraph", cfg(depth=4, shape="chain", invs="INVARIANT EmitAll\nINVARIANT GetIsPathProduct"), workers=1, timeout=1500), "emit-chain-cover")
         note("emit state cover from a chain", r)
-        behs += r.printed
+        behs += _pack(r)
         n_chain += len(r.printed)
     if n_cover < 100 or n_leaf < 100 or n_sim < nsim or n_chain < 1000:
         raise MachineryError(f"emission too small: cover={n_cover} leaf={n_leaf} sim={n_sim}")
@@ -373,7 +383,7 @@ def main(argv):
         "behaviours": {"state_cover": n_cover, "all_histories_depth3": n_leaf, "simulated": n_sim, "from_chain": n_chain},
         "exhaustive": True,
         "replay_wall_s": round(time.time() - t0, 1),
-        "samples": [behs[0]["h"] if behs[0]["h"] else behs[1]["h"], behs[n_cover + n_leaf // 2]["h"], behs[-1]["h"]],
+        "samples": [json.loads(behs[1])["h"], json.loads(behs[n_cover + n_leaf // 2])["h"], json.loads(behs[-1])["h"]],
     })
     return V.finish("model_checking", cov, assumptions=[
         "matrices range over SE(2,Z) embedded in 4x4 (rotations by multiples of 90 degrees about z, integer translations)",
